@@ -7,6 +7,6 @@ CONSTANTS
   Seeds = {"s1", "s2"}
   CallSeeds = {"s1"}
   F = 3
-  Blocks = {0, 1, 3, 4, 12, 13, 24, 15}
+  Blocks = {0, 3, 12, 13, 24}
   MaxCalls = 2
 INVARIANTS TypeOK LeaderIsOperator LeaderIgnoresOrderAndRepetition LeaderRankDependsOnSeedAndSize ChecklistShape HeartbeatBySeedOnly ChecklistDeterministic SeedDeterministic
